@@ -174,9 +174,9 @@ ACtxAt(idx) ==
         pr == m \div (Len(APost) * 128)
     IN APre[pr + 1] \o AsciiTab[c + 1] \o APost[po + 1]
 
-(* apair: every pair of 7-bit characters between two tokens with a line after it, alone, inside a string and
-   inside a comment (the context is the most significant part of the index: EXHLEN contexts are exhaustive) *)
-APairCtx == << <<"e ", "\ne">>, <<"", "">>, <<"\"", "\"\ne">>, <<"//", "\ne">> >>
+(* apair: every pair of 7-bit characters at the start of a text with a line after it, between two tokens with a
+   line after it, inside a string and inside a comment (the context is the most significant part of the index: EXHLEN contexts are exhaustive) *)
+APairCtx == << <<"", "\ne">>, <<"e ", "\ne 1">>, <<"\"", "\"\ne">>, <<"//", "\ne">> >>
 APairBlock == 128 * 128
 APairSize == Len(APairCtx) * APairBlock
 APairAt(idx) ==
